@@ -22,6 +22,29 @@ impl<T, M> Iterator for Wrapped<T, M> { type Item = T; fn next(&mut self) -> Opt
 """
 
 
+USER = """
+struct Mine<'a> {{ data: &'a [u64], counter: AtomicCounter, _m: {ity} }}
+impl<'a> orx_concurrent_iter::iter::atomic_iter::AtomicIter<&'a u64> for Mine<'a> {{
+    fn counter(&self) -> &AtomicCounter {{ &self.counter }}
+    fn progress_and_get_begin_idx(&self, n: usize) -> Option<usize> {{
+        let b = self.counter.fetch_and_add(n);
+        if b < self.data.len() {{ Some(b) }} else {{ None }}
+    }}
+    fn get(&self, i: usize) -> Option<&'a u64> {{ self.data.get(i) }}
+    fn fetch_n(&self, n: usize) -> Option<NextChunk<&'a u64, impl ExactSizeIterator<Item = &'a u64>>> {{
+        self.progress_and_get_begin_idx(n).map(|b| NextChunk {{ begin_idx: b, values: self.data[b..(b + n).min(self.data.len())].iter() }})
+    }}
+    fn early_exit(&self) {{ self.counter.store(self.data.len()) }}
+}}
+fn main() {{
+    use orx_concurrent_iter::iter::atomic_iter::AtomicIter;
+    let data = vec![1u64, 2, 3];
+    let it = Mine {{ data: &data, counter: AtomicCounter::new(), _m: {iex} }}.{adaptor}();
+    {use}
+}}
+"""
+
+
 def caps(c):
     return (c["send"], c["sync"])
 
@@ -30,6 +53,11 @@ def render_threads(row):
     ety, eex = ELEM[caps(row["elem"])]
     ity, iex = ELEM[caps(row["iter"])]
     k = row["kind"]
+    if k in ("user_cloned", "user_copied"):
+        use = {"local": "let _ = it.fetch_one();",
+               "share": "std::thread::scope(|s| { s.spawn(|| { let _ = it.fetch_one(); }); });",
+               "move": "std::thread::scope(|s| { s.spawn(move || { let _ = it.fetch_one(); }); });"}[row["use"]]
+        return PRELUDE + USER.format(ity=ity, iex=iex, adaptor="cloned" if k == "user_cloned" else "copied", use=use)
     body = ["    let col: Vec<%s> = vec![%s, %s, %s];" % (ety, eex, eex, eex)]
     if k == "slice":
         body.append("    let it = col.as_slice().into_con_iter();")
